@@ -26,7 +26,7 @@ from ..recipes import ref as R
 from .. import solvecheck as SC
 
 LEVEL = "exploration"
-BUDGET_S = {"quick": 85, "thorough": 1500}
+BUDGET_S = {"quick": 420, "thorough": 1500}
 METHODS = ["auto", "linprog", "highs", "highs-ds", "highs-ipm", "SLSQP", "trust-constr", "L-BFGS-B", "BFGS", "Nelder-Mead", "COBYLA"]
 LP_ONLY = {"linprog", "highs", "highs-ds", "highs-ipm"}
 
